@@ -347,12 +347,16 @@ where
 
 /-! ## C14: the statement about one output stack -/
 
+def isElided : Frame → Bool
+  | .elided _ => true
+  | _ => false
+
 /-- `out` is an admissible rendering of the original root-first stack `orig` -/
 def elisionOk (orig out : List Frame) : Bool :=
   let n := orig.length
   if n < 500 then out == orig
   else
-    match out.findIdx? (fun f => match f with | .elided _ => true | _ => false) with
+    match out.findIdx? isElided with
     | none => false
     | some i =>
       match out[i]? with
